@@ -18,12 +18,12 @@ Inductive tev :=
 | TApply.              (* swarm-interaction hook applied the request to the store *)
 
 Section Chains.
-  Context {U R S : Type}.
+  Context {U R St : Type}.
   (* a configured hook: (context, response) -> (context', response', error?) *)
   Definition hook := ctx U -> R -> ctx U * R * option err.
   (* the store-facing behaviour of the two built-in hooks *)
-  Variable fill : S -> R -> R.        (* responseHook: counts and peers from the store *)
-  Variable apply_req : S -> S.        (* swarmInteractionHook: the request applied to the swarm *)
+  Variable fill : St -> R -> R.        (* responseHook: counts and peers from the store *)
+  Variable apply_req : St -> St.       (* swarmInteractionHook: the request applied to the swarm *)
 
   (* run configured hooks i, i+1, ... ; stop at the first error *)
   Fixpoint run_hooks (mk : nat -> tev) (i : nat) (hs : list hook) (c : ctx U) (r : R) (tr : list tev)
@@ -40,7 +40,7 @@ Section Chains.
     end.
 
   (* Logic.HandleAnnounce: configured pre-hooks, then the response hook *)
-  Definition handle (pre : list hook) (st : S) (c : ctx U) (r0 : R) : (err + ctx U * R) * list tev :=
+  Definition handle (pre : list hook) (st : St) (c : ctx U) (r0 : R) : (err + ctx U * R) * list tev :=
     match run_hooks TPre 0 pre c r0 [] with
     | (inl e, tr) => (inl e, tr)
     | (inr (c', r'), tr) =>
@@ -48,7 +48,7 @@ Section Chains.
     end.
 
   (* Logic.AfterAnnounce: configured post-hooks, then the swarm-interaction hook *)
-  Definition after (post : list hook) (st : S) (c : ctx U) (r : R) : S * list tev :=
+  Definition after (post : list hook) (st : St) (c : ctx U) (r : R) : St * list tev :=
     match run_hooks TPost 0 post c r [] with
     | (inl _, tr) => (st, tr)                      (* "post-announce hooks failed": logged, the rest is skipped *)
     | (inr (c', _), tr) => if skip_swarm c' then (st, tr) else (apply_req st, tr ++ [TApply])
@@ -56,8 +56,8 @@ Section Chains.
 
   (* what a frontend does with one request: HandleAnnounce; on error only the error
      is written; otherwise the response is written and AfterAnnounce runs *)
-  Record served := { s_out : err + R; s_store : S; s_trace : list tev }.
-  Definition serve (pre post : list hook) (st : S) (c : ctx U) (r0 : R) : served :=
+  Record served := { s_out : err + R; s_store : St; s_trace : list tev }.
+  Definition serve (pre post : list hook) (st : St) (c : ctx U) (r0 : R) : served :=
     match handle pre st c r0 with
     | (inl e, tr) => {| s_out := inl e; s_store := st; s_trace := tr |}
     | (inr (c', r), tr) =>
